@@ -245,6 +245,26 @@ class C05(PropBase):
                     f["msg"] = policy.byz_response(g, mid, rng.choice(policy.RESPONSE_KINDS), notice=False)
                 else:
                     f["msg"] = policy.byz_response(g, mid, "ExtendedResponse", notice=True)
+                if rng.random() < 0.35:
+                    # text fields that are not valid UTF-8 (latin-1 byte, lone continuation byte, truncated sequence)
+                    bad = {"hex": rng.choice(["e9", "80", "c3", "f09f98", "41ff42", "eda080"])}
+                    msg = f["msg"]
+                    slots = []
+                    if "result" in msg:
+                        slots += [("result", "diag"), ("result", "matched_dn")]
+                    for k2 in ("object_name", "base"):
+                        if k2 in msg:
+                            slots.append((None, k2))
+                    if msg["t"] == "BindRequest":
+                        slots.append((None, "name"))
+                    if slots:
+                        a1, b1 = rng.choice(slots)
+                        if a1:
+                            msg[a1] = dict(msg[a1])
+                            msg[a1][b1] = bad
+                        else:
+                            msg[b1] = bad
+                        f["bad_utf8"] = True
             elif kind == "deep_nest":
                 f["depth"] = rng.choice([10, 50, 150, 300, 500, 1000, 2000, 5000])
                 f["shape"] = rng.choice(["not", "andor", "envelope"])
